@@ -21,6 +21,7 @@ import Bpp.Extract
 import Bpp.CountThm
 import Bpp.ScalarField
 import Bpp.FreeModule
+import Bpp.WireThm
 /-! # Property theorems
 
 Only the property statements live here, one block per C-id, each about the **executable** model functions of
@@ -955,6 +956,31 @@ open Model.Codec in
 /-- proof bytes: degree byte, d1, A, A1, B, r1, s1, interleaved L/R -/
 theorem C19_layout_proof (p : Proof) :
     encode p = UInt8.ofNat p.tag :: (encodeScalars p.d1 ++ (p.a ++ (p.a1 ++ (p.b ++ (leBytes 32 p.r1 ++ (leBytes 32 p.s1 ++ encodePairs p.li p.ri)))))) := rfl
+
+open Model Model.Wire in
+/-- **C19 (the text tie itself).** Every scalar crossing the line protocol between harness and driver — each proof
+    element, challenge, nonce and mask of every `prove` / `verify` / `recover` / `encode` request of the correspondence
+    check and of the reference prover and verifier — is printed by the driver as the 32 little-endian bytes of its
+    canonical representative, i.e. exactly the proof encoding's scalar bytes (`Model.Codec.leBytes 32`, what
+    `Scalar::as_bytes` yields), as 64 hex characters; parsing that text returns the same scalar, and distinct canonical
+    scalars have distinct texts. (Splitting request lines into tokens is not covered.) -/
+theorem C19_driver_scalar_text (x y : Fl) (hx : x.v < ell) (hy : y.v < ell) :
+    scalarOfHex (hexOfScalar x) = some x ∧
+    hexOfScalar x = bytesToHex (Model.Codec.leBytes 32 x.v) ∧
+    (hexOfScalar x).toList.length = 64 ∧
+    (hexOfScalar x = hexOfScalar y → x = y) ∧
+    (∀ bs : List UInt8, hexToBytes (bytesToHex bs) = some bs) :=
+  ⟨WireThm.scalar_roundtrip x hx, by rw [hexOfScalar, WireThm.natToLe_eq_leBytes], WireThm.hexOfScalar_length x,
+   WireThm.hexOfScalar_inj x y hx hy, WireThm.hexToBytes_bytesToHex⟩
+
+/-- non-vacuity: the scalar ℓ − 1 is canonical, and its bytes are the well-known little-endian string `ecd3f55c…10` -/
+example : (⟨Model.ell - 1⟩ : Model.Fl).v < Model.ell ∧
+    Model.Codec.leBytes 32 (Model.ell - 1) =
+      [236, 211, 245, 92, 26, 99, 18, 88, 214, 156, 247, 162, 222, 249, 222, 20,
+       0, 0, 0, 0, 0, 0, 0, 0, 0, 0, 0, 0, 0, 0, 0, 16] := by
+  constructor
+  · decide
+  · decide +kernel
 
 /-! ## Scalar-level layer (C01, C02, C12, C16): the lists handed to the multiscalar multiplications
 
